@@ -576,16 +576,26 @@ theorem usable_of_done {P : Prog} {pre : List Mod} {done : List Nat} {s : St} (h
 
 theorem initBody_spec {P : Prog} {pre : List Mod} (imp : Mod → Bool) {done : List Nat} {s : St} (p : Nat)
     (hd : DInv P pre done s) (himp : ∀ q ∈ (P p).imports, q ∈ done)
-    (hs : scopedPkg P p = true) (hdo : declOnlyPkg P p = true) (hbi : boundImportable P imp p = true) :
+    (hs : scopedPkg P p = true) (hdo : declOnlyPkg P p = true) (hbi : boundImportable P imp p = true)
+    (hlo : loadsOkPkg P p = true) :
     ∃ s', initBody P imp s p = .ok s' ∧ DInv P pre (done ++ [p]) s' := by
+
   unfold initBody
   cases hb : (P p).binds with
   | none =>
     simp only
-    have hm : ∀ y ∈ (P p).pyobjs, y.1 ∈ s.modVar := fun y hy => by
-      obtain ⟨q, hq, hbq⟩ := scoped_mod hs (mem_pyobjs.1 hy) (m := y.1) rfl hb
+    have hlo' : (∀ y ∈ (P p).loads, y ∈ (P p).pyobjs) ∧ (∀ y ∈ (P p).pyobjs, y ∈ (P p).loads) := by
+      unfold loadsOkPkg at hlo
+      simp only [hb, Option.isSome_none, Bool.false_eq_true, if_false, Bool.and_eq_true, List.all_eq_true,
+        List.contains_iff_mem] at hlo
+      exact hlo
+    have hl1 := hlo'.1
+    have hl2 := hlo'.2
+    have hm : ∀ y ∈ (P p).loads, y.1 ∈ s.modVar := fun y hy => by
+      obtain ⟨q, hq, hbq⟩ := scoped_mod hs (mem_pyobjs.1 (hl1 y hy)) (m := y.1) rfl hb
       exact (hd.modDone y.1).2 ⟨q, himp q hq, hbq⟩
-    obtain ⟨s1, h1, i1, f1, m1⟩ := loadSyms_spec p (P p).pyobjs hd.inv hm
+    obtain ⟨s1, h1, i1, f1, m0⟩ := loadSyms_spec p (P p).loads hd.inv hm
+    have m1 : ∀ y ∈ (P p).pyobjs, y ∈ s1.symVar := fun y hy => m0 y (hl2 y hy)
     have hd1 := hd.frame i1 f1
     obtain ⟨s2, h2, i2, f2⟩ := uses_spec imp p (P p).initUses i1
       (fun u hu => usable_of_done hd1 hs hb himp m1 (by simp [Pkg.allUses, hu]))
@@ -666,6 +676,7 @@ structure PkgOk (P : Prog) (imp : Mod → Bool) (p : Nat) : Prop where
   isScoped : scopedPkg P p = true
   isDeclOnly : declOnlyPkg P p = true
   isImportable : boundImportable P imp p = true
+  isLoadsOk : loadsOkPkg P p = true
 
 theorem inits_spec {P : Prog} {pre : List Mod} (imp : Mod → Bool) : ∀ (l₂ done : List Nat) (s : St),
     DInv P pre done s → DepsFirst P (done ++ l₂) → (∀ p ∈ l₂, PkgOk P imp p) →
@@ -676,7 +687,7 @@ theorem inits_spec {P : Prog} {pre : List Mod} (imp : Mod → Bool) : ∀ (l₂ 
   | cons p rest ih =>
     intro done s hd hdf hok
     have hp := hok p (by simp)
-    obtain ⟨s1, h1, d1⟩ := initBody_spec imp p hd (hdf done p rest rfl) hp.isScoped hp.isDeclOnly hp.isImportable
+    obtain ⟨s1, h1, d1⟩ := initBody_spec imp p hd (hdf done p rest rfl) hp.isScoped hp.isDeclOnly hp.isImportable hp.isLoadsOk
     obtain ⟨s2, h2, d2⟩ := ih (done ++ [p]) s1 d1 (by simpa using hdf) (fun q hq => hok q (by simp [hq]))
     refine ⟨s2, ?_, by simpa using d2⟩
     simp only [List.foldlM_cons, h1]; exact h2
@@ -782,16 +793,16 @@ theorem consistent_of_B {P : Prog} {order : List Nat} (h : consistentB P [] orde
 /-- all hypotheses of the guard theorem as one decidable check -/
 def checkB (P : Prog) (imp : Mod → Bool) (order : List Nat) (calls : List (Nat × Use)) : Bool :=
   consistentB P [] order &&
-  order.all (fun p => scopedPkg P p && declOnlyPkg P p && boundImportable P imp p) &&
+  order.all (fun p => scopedPkg P p && declOnlyPkg P p && boundImportable P imp p && loadsOkPkg P p) &&
   needPyInit P order && callsOk P order calls
 
 theorem pkgOk_of_B {P : Prog} {imp : Mod → Bool} {order : List Nat}
-    (h : order.all (fun p => scopedPkg P p && declOnlyPkg P p && boundImportable P imp p) = true) :
+    (h : order.all (fun p => scopedPkg P p && declOnlyPkg P p && boundImportable P imp p && loadsOkPkg P p) = true) :
     ∀ p ∈ order, PkgOk P imp p := by
   intro p hp
   have := List.all_eq_true.1 h p hp
   simp only [Bool.and_eq_true] at this
-  exact ⟨this.1.1, this.1.2, this.2⟩
+  exact ⟨this.1.1.1, this.1.1.2, this.1.2, this.2⟩
 
 /-! ## Part 3: argument marshalling and values -/
 
